@@ -1,9 +1,12 @@
 import ChythonModel.Model.C06Rings
 import ChythonModel.Spec.CycleBasis
+import ChythonModel.Spec.CycleBasisMin
+import ChythonModel.Model.C06Pid
 /-!
 Line-protocol driver for C06.
 
 `case <mol wire ints> <k> (<len> <atoms…>)×k`  → one line of `|`-separated fields (see `handleCase`)
+`pid <mol wire ints>` → `paths=…|cands=…|final=…` (model of `_bfs`, `_c_set`, `_rings_filter`; see `handlePid`)
 `canon <ring…>` / `radj <ring…>` / `scis <n> <m> <ring…>` → the model's `_canonic_ring` / `_ring_adjacency` / `_ring_scissors`
 -/
 open ChythonModel.Py ChythonModel.Model ChythonModel.Model.C06 ChythonModel.Spec.CycleBasis
@@ -81,6 +84,32 @@ def handleCase (xs : List Int) : String :=
               | some out => "/".intercalate ((out.mergeSort lexLe).map commas)),
             "marks=" ++ ";".intercalate (((ringMarks m rings).mergeSort fun a b => decide (a.n ≤ b.n)).map showMark)]
 
+def showRings (rs : List (List Nat)) : String := ";".intercalate (rs.map commas)
+
+/-- `pid <mol wire ints>`: the PID stage of `_sssr` on `not_special_connectivity` with `n_sssr = rings_count`:
+`_bfs` paths, the `_c_set` candidate sequence (`!` = the generator raises there) and the `_rings_filter` result -/
+def handlePid (xs : List Int) : String :=
+  match Mol.parse xs with
+  | none => "badwire"
+  | some (m, _) =>
+    let gf := fullAdj m
+    let gn := notSpecial m
+    if !(m.WF && wfAdj gf && symAdj gf) then "malformed"
+    else
+      let paths := match skinGraph gn with
+        | none => "raise"
+        | some s => match ChythonModel.Model.C06.bfsPaths s with
+          | none => "raise"
+          | some ps => showRings ps
+      let cands := match pidCandidates gn with
+        | none => "raise"
+        | some cs => ";".intercalate (cs.map fun c => match c with | none => "!" | some r => commas r)
+      let fin := match sssrModel m with
+        | .ok rs => "ok " ++ showRings rs
+        | .notReached => "notreached"
+        | .raised => "raise"
+      "|".intercalate ["paths=" ++ paths, "cands=" ++ cands, "final=" ++ fin]
+
 def showOptRing : Option (List Nat) → String
   | none => "raise"
   | some r => "ok " ++ commas r
@@ -94,6 +123,7 @@ def handle (line : String) : String :=
     | some xs =>
       match op with
       | "case" => handleCase xs
+      | "pid" => handlePid xs
       | "canon" => showOptRing (canonicRing (xs.map Int.toNat))
       | "scis" =>
         match xs with
